@@ -228,3 +228,55 @@ package mysql
 //@   flags partial
 //@   assert_at exec#1 stmt.OptimizeReplication.flush [C19]: callarg0 == querySetInnodbFlushLogAtTrxCommit && unbox(callarg1["level"], "int") == OptimalInnodbFlushLogAtTrxCommitValue
 //@   assert_at exec#2 stmt.OptimizeReplication.sync [C19]: callarg0 == querySetSyncBinlog && unbox(callarg1["sync_binlog"], "int") == OptimalSyncBinlogValue
+
+// ---- the getters: which statement is sent and how the scanned row becomes the answer ---------------------------------
+//@ func (*mysql.Node).IsReadOnly
+//@   assert_at queryRow#1 get.IsReadOnly.query [C10,C18,C08]: callarg0 == queryIsReadOnly
+//@   assert_at return#* get.IsReadOnly.answer [C10,C18,C08]: (result0 <==> ror.ReadOnly > 0) && (result1 <==> ror.SuperReadOnly > 0) && result2 == resultof("queryRow", 1)
+//@ func (*mysql.Node).IsOffline
+//@   assert_at queryRow#1 get.IsOffline.query [C17]: callarg0 == queryGetOfflineMode
+//@   assert_at return#* get.IsOffline.answer [C17]: result1 == resultof("queryRow", 1) && (result1 == nil ==> (result0 <==> status.OfflineMode == 1)) && (result1 != nil ==> !result0)
+//@ func (*mysql.Node).Ping
+//@   assert_at queryRow#1 get.Ping.query [C05,C04,C08]: callarg0 == queryPing
+//@   assert_at return#* get.Ping.answer [C05,C04,C08]: (result0 <==> result$1.Ok > 0) && result1 == resultof("queryRow", 1)
+//@ func (*mysql.Node).IsWaitingSemiSyncAck
+//@   assert_at queryRow#1 get.IsWaitingSemiSyncAck.query [C08,C11]: callarg0 == queryHasWaitingSemiSyncAck
+//@   assert_at return#* get.IsWaitingSemiSyncAck.answer [C08,C11]: result0 == status.IsWaiting && result1 == resultof("queryRow", 1)
+
+// accessors of the two status flavours: each returns its own column (names follow the SHOW REPLICA / SLAVE STATUS columns)
+//@ func (*mysql.ReplicaStatusStruct).GetMasterHost
+//@   ensures col.GetMasterHost [C01,C04,C10,C11,C16]: result == ss.SourceHost
+//@ func (*mysql.SlaveStatusStruct).GetMasterHost
+//@   ensures col.GetMasterHost [C01,C04,C10,C11,C16]: result == ss.MasterHost
+//@ func (*mysql.ReplicaStatusStruct).GetMasterLogFile
+//@   ensures col.GetMasterLogFile [C01,C04,C10,C11,C16]: result == ss.SourceLogFile
+//@ func (*mysql.SlaveStatusStruct).GetMasterLogFile
+//@   ensures col.GetMasterLogFile [C01,C04,C10,C11,C16]: result == ss.MasterLogFile
+//@ func (*mysql.ReplicaStatusStruct).GetReadMasterLogPos
+//@   ensures col.GetReadMasterLogPos [C01,C04,C10,C11,C16]: result == ss.ReadSourceLogPos
+//@ func (*mysql.SlaveStatusStruct).GetReadMasterLogPos
+//@   ensures col.GetReadMasterLogPos [C01,C04,C10,C11,C16]: result == ss.ReadMasterLogPos
+//@ func (*mysql.ReplicaStatusStruct).GetExecutedGtidSet
+//@   ensures col.GetExecutedGtidSet [C01,C04,C10,C11,C16]: result == ss.ExecutedGtidSet
+//@ func (*mysql.SlaveStatusStruct).GetExecutedGtidSet
+//@   ensures col.GetExecutedGtidSet [C01,C04,C10,C11,C16]: result == ss.ExecutedGtidSet
+//@ func (*mysql.ReplicaStatusStruct).GetRetrievedGtidSet
+//@   ensures col.GetRetrievedGtidSet [C01,C04,C10,C11,C16]: result == ss.RetrievedGtidSet
+//@ func (*mysql.SlaveStatusStruct).GetRetrievedGtidSet
+//@   ensures col.GetRetrievedGtidSet [C01,C04,C10,C11,C16]: result == ss.RetrievedGtidSet
+//@ func (*mysql.ReplicaStatusStruct).GetLastIOErrno
+//@   ensures col.GetLastIOErrno [C01,C04,C10,C11,C16]: result == ss.LastIOErrno
+//@ func (*mysql.SlaveStatusStruct).GetLastIOErrno
+//@   ensures col.GetLastIOErrno [C01,C04,C10,C11,C16]: result == ss.LastIOErrno
+//@ func (*mysql.ReplicaStatusStruct).GetLastSQLErrno
+//@   ensures col.GetLastSQLErrno [C01,C04,C10,C11,C16]: result == ss.LastSQLErrno
+//@ func (*mysql.SlaveStatusStruct).GetLastSQLErrno
+//@   ensures col.GetLastSQLErrno [C01,C04,C10,C11,C16]: result == ss.LastSQLErrno
+//@ func (*mysql.ReplicaStatusStruct).GetLastError
+//@   ensures col.GetLastError [C01,C04,C10,C11,C16]: result == ss.LastError
+//@ func (*mysql.SlaveStatusStruct).GetLastError
+//@   ensures col.GetLastError [C01,C04,C10,C11,C16]: result == ss.LastError
+//@ func (*mysql.ReplicaStatusStruct).GetLastIOError
+//@   ensures col.GetLastIOError [C01,C04,C10,C11,C16]: result == ss.LastIOError
+//@ func (*mysql.SlaveStatusStruct).GetLastIOError
+//@   ensures col.GetLastIOError [C01,C04,C10,C11,C16]: result == ss.LastIOError
